@@ -7,7 +7,8 @@ use serde_json::{json, Value};
 
 pub const SYMS: [u8; 9] = [b'\n', b'\r', b' ', b'a', b':', b'#', b'1', b'-', b'>'];
 
-pub const TOKENS: [&[u8]; 16] = [
+pub const TOKENS: [&[u8]; 17] = [
+    b" ",
     b"    ",
     b" -> ",
     b":",
@@ -118,9 +119,12 @@ fn lazy<'a>(bytes: &'a [u8]) -> impl Iterator<Item = LItem<'a>> + 'a {
 fn case_single(s: &[u8]) -> Value {
     json!({"kind":"bytes","text":esc(s)})
 }
-fn case_pair(a: &[u8], b: &[u8]) -> Value {
-    json!({"kind":"pair","a":esc(a),"b":esc(b)})
+fn case_pair(a: &[u8], b: &[u8], j: &[u8]) -> Value {
+    json!({"kind":"pair","a":esc(a),"b":esc(b),"joiner":esc(j)})
 }
+
+/// the line breaks the parser knows: LF, CR, CRLF
+pub const JOINERS: [&[u8]; 3] = [b"\n", b"\r", b"\r\n"];
 
 /// totality + no-terminator on one string
 fn check_single(s: &[u8], acc: &mut Acc) -> bool {
@@ -141,13 +145,19 @@ fn check_single(s: &[u8], acc: &mut Acc) -> bool {
     }
 }
 
-/// records(A + LF + B) == records(A) ++ records(B)
-fn check_pair(a: &[u8], b: &[u8], joined: &mut Vec<u8>, acc: &mut Acc) {
+/// records(A + line break + B) == records(A) ++ records(B)
+fn check_pair(a: &[u8], b: &[u8], j: &[u8], joined: &mut Vec<u8>, acc: &mut Acc) {
     joined.clear();
     joined.extend_from_slice(a);
-    joined.push(b'\n');
+    joined.extend_from_slice(j);
     joined.extend_from_slice(b);
     acc.observations += 1;
+    // the joined string must itself satisfy totality / no-terminator
+    if let Ok(Err((sig, d))) = guarded(|| items(joined).map(|_| ())) {
+        let jb = joined.clone();
+        acc.violation(format!("single:{}", sig), jb.len(), || (format!("{} on {:?}", d, esc(&jb)), case_single(&jb)));
+        return;
+    }
     let r = guarded(|| {
         let (Ok(ia), Ok(ib), Ok(ij)) = (items(a), items(b), items(joined)) else { return None };
         let ok = ij.len() == ia.len() + ib.len() && ij[..ia.len()] == ia[..] && ij[ia.len()..] == ib[..];
@@ -155,17 +165,67 @@ fn check_pair(a: &[u8], b: &[u8], joined: &mut Vec<u8>, acc: &mut Acc) {
     });
     match r {
         Ok(Some((true, _))) | Ok(None) => {}
-        Ok(Some((false, d))) => acc.violation("resync:records-differ", a.len() + b.len(), || (format!("records(A+LF+B) != records(A)++records(B) for A={:?} B={:?}: {}", esc(a), esc(b), d), case_pair(a, b))),
-        Err(p) => acc.violation(format!("panic:{}", panic_site(&p)), a.len() + b.len(), || (format!("panic {}", p), case_pair(a, b))),
+        Ok(Some((false, d))) => acc.violation(format!("resync:records-differ:{}", match j { b"\n" => "LF", b"\r" => "CR", _ => "CRLF" }), a.len() + b.len(), || (format!("records(A+{:?}+B) != records(A)++records(B) for A={:?} B={:?}: {}", esc(j), esc(a), esc(b), d), case_pair(a, b, j))),
+        Err(p) => acc.violation(format!("panic:{}", panic_site(&p)), a.len() + b.len(), || (format!("panic {}", p), case_pair(a, b, j))),
     }
 }
 
-/// every LF split of one string
+/// every split of one string at a line break (LF, lone CR, CRLF)
 fn check_splits(s: &[u8], joined: &mut Vec<u8>, acc: &mut Acc) {
     for (i, &c) in s.iter().enumerate() {
         if c == b'\n' {
             acc.transitions += 1;
-            check_pair(&s[..i], &s[i + 1..], joined, acc);
+            check_pair(&s[..i], &s[i + 1..], b"\n", joined, acc);
+        } else if c == b'\r' {
+            acc.transitions += 1;
+            if s.get(i + 1) == Some(&b'\n') {
+                check_pair(&s[..i], &s[i + 2..], b"\r\n", joined, acc);
+            } else {
+                check_pair(&s[..i], &s[i + 1..], b"\r", joined, acc);
+            }
+        }
+    }
+}
+
+/// "cut family": every well-formed line cut at every byte position, the cut replaced by a line break, with
+/// and without delimiter-rich lines around it (a truncated line may only turn itself into an error)
+pub const CUT_LINES: [&str; 12] = [
+    "com.example.Foo -> a.b:",
+    "    int count -> c",
+    "    java.util.List items -> d",
+    "    void <init>() -> <init>",
+    "    1:2:void run(int,a.B[]):3:4 -> r",
+    "    5:6:ret.T x.Y.inl(java.lang.String):7 -> s",
+    "    void q(int) -> t",
+    "# compiler: R8",
+    "# {\"id\":\"sourceFile\",\"fileName\":\"S.kt\"}",
+    "# pg_map_id: 1a2b",
+    "\u{e9}.\u{dc} -> \u{fc}:",
+    "    8:9:void \u{e9}(\u{dc}) -> \u{fc}",
+];
+
+fn cut_family(joined: &mut Vec<u8>, acc: &mut Acc) {
+    let all: Vec<u8> = CUT_LINES.iter().flat_map(|l| l.bytes().chain(std::iter::once(b'\n'))).collect();
+    for l in CUT_LINES {
+        let lb = l.as_bytes();
+        for i in 0..=lb.len() {
+            for before in [&b""[..], b"p.Q -> q:\n", &all[..]] {
+                for after in [&b""[..], &all[..]] {
+                    let mut a = before.to_vec();
+                    a.extend_from_slice(&lb[..i]);
+                    let mut b = lb[i..].to_vec();
+                    b.push(b'\n');
+                    b.extend_from_slice(after);
+                    for j in JOINERS {
+                        acc.states += 1;
+                        acc.transitions += 1;
+                        if check_single(&a, acc) && check_single(&b, acc) {
+                            check_pair(&a, &b, j, joined, acc);
+                        }
+                        acc.count("cut-family pairs", 1);
+                    }
+                }
+            }
         }
     }
 }
@@ -296,11 +356,17 @@ pub fn run(tier: Tier) -> i32 {
             }
             Work::Pairs(a0, a1, amax) => {
                 // A ranges over all token strings of length 2..=amax starting with (a0, a1)
-                fn rec(a: &mut Vec<u8>, left: usize, bs: &[Vec<u8>], joined: &mut Vec<u8>, acc: &mut Acc, budget: &Budget) {
+                fn rec(a: &mut Vec<u8>, left: usize, bs: &[Vec<u8>], joined: &mut Vec<u8>, acc: &mut Acc, budget: &Budget, deep_all: bool) {
                     for b in bs {
-                        acc.states += 1;
-                        acc.transitions += 1;
-                        check_pair(a, b, joined, acc);
+                        for (ji, j) in JOINERS.iter().enumerate() {
+                            // CR / CRLF joins: one token less for A in the deepest layer (quick tier keeps LF complete)
+                            if ji > 0 && left == 0 && !deep_all {
+                                continue;
+                            }
+                            acc.states += 1;
+                            acc.transitions += 1;
+                            check_pair(a, b, j, joined, acc);
+                        }
                     }
                     if left == 0 || budget.exceeded() {
                         return;
@@ -308,23 +374,26 @@ pub fn run(tier: Tier) -> i32 {
                     for t in TOKENS {
                         let l = a.len();
                         a.extend_from_slice(t);
-                        rec(a, left - 1, bs, joined, acc, budget);
+                        rec(a, left - 1, bs, joined, acc, budget, deep_all);
                         a.truncate(l);
                     }
                 }
                 let mut a = Vec::new();
                 a.extend_from_slice(TOKENS[*a0]);
                 a.extend_from_slice(TOKENS[*a1]);
-                rec(&mut a, amax - 2, &bs, &mut joined, acc, budget);
+                rec(&mut a, amax - 2, &bs, &mut joined, acc, budget, t);
             }
             Work::PairsShort => {
                 for a in all_token_strings(1) {
                     for b in &bs {
-                        acc.states += 1;
-                        acc.transitions += 1;
-                        check_pair(&a, b, &mut joined, acc);
+                        for j in JOINERS {
+                            acc.states += 1;
+                            acc.transitions += 1;
+                            check_pair(&a, b, j, &mut joined, acc);
+                        }
                     }
                 }
+                cut_family(&mut joined, acc);
             }
             Work::Corpus(i, shard, n, stride) => {
                 let (name, bytes) = &corpus[*i];
@@ -370,7 +439,7 @@ pub fn run(tier: Tier) -> i32 {
         prop: "C06",
         tier,
         level: "model_checking",
-        rule: format!("inputs enumerated exhaustively: all byte strings of length <= {} over the 9 symbols LF CR SP a : # 1 - >; all strings of <= {} tokens over the 16-token alphabet (delimiters, sourceFile prefix, '\"}}', invalid UTF-8, Latin-1 'numeric' byte, 30-digit run); every LF split of each of them; all pairs (A, B) with A <= {} tokens, B <= 2 tokens; line-boundary splits of the corpus files. Oracle: iteration ends within len+1 items without panic, no yielded string contains CR/LF, records(A+LF+B) = records(A)++records(B) (Ok records exactly, Err items by offending line modulo terminator, zero-length error items ignored). states = strings / pairs / splits; distinct = distinct item streams", sym_depth, tok_depth, amax),
+        rule: format!("inputs enumerated exhaustively: all byte strings of length <= {} over the 9 symbols LF CR SP a : # 1 - >; all strings of <= {} tokens over the 17-token alphabet (single space, delimiters, sourceFile prefix, '\"}}', invalid UTF-8, Latin-1 'numeric' byte, 30-digit run); every split of each of them at LF / lone CR / CRLF; all pairs (A, B) with A <= {} tokens, B <= 2 tokens joined by LF (and by CR and CRLF with A one token shorter in the quick tier); the cut family (12 well-formed lines cut at every byte, x 3 contexts before x 2 after x 3 line breaks); line-boundary splits of the corpus files. Oracle: iteration ends within len+1 items without panic, no yielded string contains CR/LF, records(A+linebreak+B) = records(A)++records(B) (Ok records exactly, Err items by offending line modulo terminator, zero-length error items ignored). states = strings / pairs / splits; distinct = distinct item streams", sym_depth, tok_depth, amax),
         bounds: json!({"byte_string_length": sym_depth, "token_string_depth": tok_depth, "pairs": {"A_tokens": amax, "B_tokens": 2}, "tokens": TOKENS.iter().map(|t| esc(t)).collect::<Vec<_>>(), "corpus": "small files: every line boundary; the two files > 100 kB: every 1024th (quick) / 32nd (thorough) line boundary - that part is a stride, not exhaustive"}),
         assumptions: vec!["reading I3: a zero-length error item (blank tail after an error line) is not a malformed line".into()],
         trusted_base: vec!["rustc/std".into(), "Debug formatting of ProguardRecord for exact comparison of Ok records".into()],
@@ -391,15 +460,16 @@ pub fn recheck(case: &Value) -> Vec<String> {
         "pair" => {
             let a = unesc(case["a"].as_str().unwrap_or(""));
             let b = unesc(case["b"].as_str().unwrap_or(""));
+            let j = unesc(case["joiner"].as_str().unwrap_or("\\n"));
             check_single(&a, &mut acc);
             check_single(&b, &mut acc);
-            check_pair(&a, &b, &mut joined, &mut acc);
+            check_pair(&a, &b, &j, &mut joined, &mut acc);
         }
         "corpus-split" => {
             if let Ok(bytes) = std::fs::read(case["file"].as_str().unwrap_or("")) {
                 let p = case["at"].as_u64().unwrap_or(0) as usize;
                 if p < bytes.len() {
-                    check_pair(&bytes[..p], &bytes[p + 1..], &mut joined, &mut acc);
+                    check_pair(&bytes[..p], &bytes[p + 1..], b"\n", &mut joined, &mut acc);
                     if !acc.violations.is_empty() {
                         return vec!["resync:corpus-split".into()];
                     }
